@@ -26,15 +26,27 @@ Lemma error_sites_all_return :
   forallb (fun hs => forallb (fun b => b) (snd hs)) handler_error_sites = true.
 Proof. vm_compute. reflexivity. Qed.
 
-Lemma handler_rpcs_are : handler_rpcs = [
+(* The RPCs each hijack handler can issue, as a multiset per handler: the table lists call sites in source order, and the
+   source order of call sites in exclusive branches says nothing about behaviour (swapping the two branches of pinLsHandler
+   must not break this obligation); the order in which a request really issues its calls is compared case by case by the
+   correspondence (r_ops / proxy_ops_faithful). *)
+Definition rpc_eqb (a b : string * string) : bool := String.eqb (fst a) (fst b) && String.eqb (snd a) (snd b).
+Definition rpc_count (x : string * string) (l : list (string * string)) : nat := List.length (filter (rpc_eqb x) l).
+Definition rpc_perm_b (l1 l2 : list (string * string)) : bool :=
+  Nat.eqb (List.length l1) (List.length l2) && forallb (fun x => Nat.eqb (rpc_count x l1) (rpc_count x l2)) l1.
+Definition rpcs_same (a b : list (string * list (string * string))) : bool :=
+  Nat.eqb (List.length a) (List.length b) &&
+  forallb (fun p => String.eqb (fst (fst p)) (fst (snd p)) && rpc_perm_b (snd (fst p)) (snd (snd p))) (combine a b).
+
+Lemma handler_rpcs_are : rpcs_same handler_rpcs [
   ("pinHandler", [("Cluster", "PinPath")]);
   ("unpinHandler", [("Cluster", "UnpinPath")]);
   ("pinLsHandler", [("Cluster", "PinGet"); ("Cluster", "Pins")]);
   ("pinUpdateHandler", [("IPFSConnector", "Resolve"); ("Cluster", "PinPath"); ("Cluster", "Unpin")]);
   ("addHandler", [("adderutils", "AddMultipartHTTPHandler"); ("Cluster", "Unpin")]);
   ("repoStatHandler", [("Consensus", "Peers"); ("IPFSConnector", "RepoStat")]);
-  ("repoGCHandler", [("Cluster", "RepoGC")])].
-Proof. reflexivity. Qed.
+  ("repoGCHandler", [("Cluster", "RepoGC")])] = true.
+Proof. vm_compute. reflexivity. Qed.
 
 (* ------------------------------------------------------------------------------------------ *)
 (* template matching over literal prefixes                                                    *)
